@@ -17,7 +17,7 @@ ALL = PLAIN + CONFIGS
 # prior content of the file `init` appends to: LF, no final newline, CRLF (with and without a final one), lone CR, mixed endings,
 # non-ASCII text, trailing blanks — "leaving prior content of that file intact as a prefix" is about BYTES
 UNRELATED = {
-    "setup.cfg": ["[metadata]\nname = demo\n", "[metadata]\nname = demo", "[bumpversion]\ncurrent_version = 0.1.0\ncommit = True\n", "[flake8]\nmax-line-length = 100\n\n\n",
+    "setup.cfg": ["[metadata]\nname = demo\n", "[metadata]\nname = demo", "[metadata]\nname: demo\nversion : 0.1\n", "[options]\ninstall_requires:\n    click\n    toml\n", "[bumpversion]\ncurrent_version = 0.1.0\ncommit = True\n", "[flake8]\nmax-line-length = 100\n\n\n",
                   "[metadata]\r\nname = demo\r\n", "[metadata]\r\nname = d\u00e9mo \u2713\r\ndescription = x", "[metadata]\nname = demo\r\n\n[flake8]\rmax-line-length = 100\r", "[metadata]\nname = demo \t\n \n",
                   # mentions of bumpver that are NOT a bumpver section with a current_version
                   "[options.extras_require]\ndev =\n    bumpver\n# configured in [bumpver] of bumpver.toml\n", "[tox:tox]\nenvlist = bumpver\n\n[testenv:bumpver]\ndeps = bumpver\n"],
